@@ -65,7 +65,7 @@ structure DocRec where
   syms : List (Option Sym)
   deriving DecidableEq, Repr
 
-def contentLen (hex : String) : Nat := if hex = "-" then 0 else hex.length / 2
+def contentLen (hex : String) : Nat := hex.length / 2
 
 /-- `for mask != 0 { if mask&1 != 0 { append(branchNames[repo][id]) }; id <<= 1; mask >>= 1 }`: the names of the set
     bits, lowest first; a bit without a branch yields "" (missing map key). `fuel` bounds the 64-bit mask. -/
@@ -135,6 +135,12 @@ def Builder.add (b : Builder) (rec : DocRec) (redetect : String) : Option Builde
 def Builder.setRepository (b : Builder) (r : RepoMeta) : Option Builder :=
   if r.branches.length > 64 then none else some { b with groups := b.groups ++ [(r, [])] }
 
+/-- `lastRepoID > repoID` (`none` = -1) -/
+def gtLast (last : Option Nat) (n : Nat) : Bool :=
+  match last with
+  | some l => decide (l > n)
+  | none => false
+
 /-- the document loop shared by `merge` and `explode` over one input shard.
     `last`: `lastRepoID` (`none` = -1).  Tombstoned repositories are skipped, a repository starts at its first
     document, ids must not decrease. -/
@@ -147,7 +153,7 @@ def copyDocs (sh : Shard) : List Doc → Option Nat → Builder → Option Build
       if r.tomb then copyDocs sh ds last b else
       let start : Option Builder :=
         if last = some d.repo then some b
-        else if (match last with | some l => decide (l > d.repo) | none => false) then none
+        else if gtLast last d.repo then none
         else b.setRepository r
       match start with
       | none => none
@@ -203,7 +209,7 @@ def explodeLoop (sh : Shard) : List Doc → Option Nat → Option Builder → Li
           match b.add (decode sh.langs r d) d.redetect with
           | none => none
           | some b' => explodeLoop sh ds last (some b') done
-      else if (match last with | some l => decide (l > d.repo) | none => false) then none
+      else if gtLast last d.repo then none
       else
         let done' := done ++ (match cur with | some b => [b.flatten] | none => [])
         match (Builder.mk [] []).setRepository r with
